@@ -210,7 +210,14 @@ def run(ctx, rep):
         rep.violation("R13.2", "lock-file-cloned", "File::try_clone", "the locked descriptor is duplicated",
                       where="%s:%d" % (rel(t["file"]), t["line"]))
     unl = ctx.all_calls(UNLOCK_EVENT)
-    rep.floor("R13.2", "unlock events", len(unl), 1)
+    # dropping the owner must give the directory back at that moment: an explicit unlock in the lock's Drop. Merely closing the descriptor
+    # releases a flock only when no duplicate of the open file description exists (a forked child holds one until it execs or exits)
+    drops_unlock = [b for b, bi, t in unl if re.search(r"file_lock::FileLock as std::ops::Drop>::drop$", b["key"])]
+    if not drops_unlock:
+        rep.violation("R13.2", "FileLock|drop-does-not-unlock", "Drop for FileLock",
+                      "the lock value's Drop does not unlock: the directory stays locked after the owner was dropped for as long as any "
+                      "duplicate of the descriptor lives (fork window of a concurrent Command::spawn), so the next open is refused",
+                      where="src/file_lock.rs")
     for b, bi, t in unl:
         where = "%s:%d" % (rel(t["file"]), t["line"])
         if re.search(r"file_lock::FileLock as std::ops::Drop>::drop$", b["key"]):
